@@ -246,7 +246,13 @@ def gen_worker_script(rs: int, knobs: Optional[dict] = None) -> dict:
         m: Dict[str, Any] = {"k": k, "send_at_us": t, "kind": "valid"}
         if faults and r.random() < kn["p_malformed"]:
             m["kind"] = "malformed"
-            m["raw_b64"] = base64.b64encode(malformed_payload(r)).decode()
+            raw = malformed_payload(r)
+            if cfg["serializer"] == "pickle" and cfg["formatter"] == "proxy":
+                # random bytes can be a "pickle bomb" for CPython's unpickler (13 bytes with a LONG_BINPUT memo index of
+                # 3.8e9 kept pickle.loads busy for 488 s and tens of GB): that is pickle on hostile input, not taskiq.
+                # Keep the payload malformed but make the unpickler reject it at the first opcode.
+                raw = b"\x00" + raw
+            m["raw_b64"] = base64.b64encode(raw).decode()
             msgs.append(m)
             continue
         if faults and r.random() < kn["p_unknown"]:
